@@ -9,6 +9,7 @@
 from __future__ import annotations
 
 from mc import core
+from mc import real
 from mc.real import top_expr
 from mc.refs import regex as R
 
@@ -57,7 +58,7 @@ def _product(tree, ref, alphabet, agg, case_base):
                 p = Pattern(0, dfa)
                 p.state = st
                 try:
-                    res = p.consume(a)
+                    res = p.consume(real.ATOMS.get(a, a))
                 except ValueError as e:
                     out.append(("dfa-ambiguous", {"api": "dfa", "error": str(e)}, path + a))
                     continue
@@ -112,7 +113,7 @@ def eval_tree(tree, seqs, alphabet, agg):
         agg.case({"pattern": tj, "seq": seq}, nontrivial, (exp_member, exp_prefix), sample=(len(s) >= 3 and exp_member))
         for api in ("match", "nfa_match", "starts_with"):
             try:
-                got = getattr(matcher, api)(top_expr(tree), s)
+                got = getattr(matcher, api)(top_expr(tree), real.real_seq(s))
             except RecursionError:
                 out.append(("api-recursion", {"api": api, "error": "RecursionError"}, seq, ""))
                 continue
@@ -125,20 +126,36 @@ def eval_tree(tree, seqs, alphabet, agg):
                     out.append(("starts-with-mismatch",
                                 {"api": api, "dir": "missed" if got_len is None else ("spurious" if exp_prefix is None else "wrong-length")},
                                 seq, f"{R.show(tree)} on {seq!r}: expected shortest prefix {exp_prefix}, got {got_len}"))
-                elif got is not None and (got.start != 0 or got.tokens != s[:got_len]):
+                elif got is not None and (got.start != 0 or got.tokens != real.real_seq(s[:got_len])):
                     out.append(("starts-with-span", {"api": api}, seq, f"start={got.start} tokens={got.tokens}"))
             else:
                 if bool(got) != exp_member:
                     out.append(("membership-mismatch", {"api": api, "dir": "false-accept" if got else "false-reject"},
                                 seq, f"{R.show(tree)} on {seq!r}: expected {exp_member}, got {bool(got)}"))
-                elif api == "match" and got and (got.start != 0 or got.end != len(s) or got.tokens != s):
+                elif api == "match" and got and (got.start != 0 or got.end != len(s) or got.tokens != real.real_seq(s)):
                     out.append(("match-span", {"api": api}, seq, f"start={got.start} end={got.end} tokens={got.tokens}"))
     return out
+
+
+WORD_ATOMS = {"a": "async", "b": ("tuple", 1), "c": "x"}  # a multi-character word, a tuple, a single character
 
 
 def _block(block, agg):
     if block[0] == "pairs":
         return _block_pairs(block, agg)
+    if block[0] == "words":
+        real.ATOMS.clear()
+        real.ATOMS.update(WORD_ATOMS)
+        try:
+            inner = tuple(block[1:])
+            atoms, size, lo, hi, seq_alpha, seq_len = inner
+            seqs = R.sequences(seq_alpha, seq_len)
+            for idx, tree in enumerate(R.trees(size, atoms)[lo:hi]):
+                for kind, sig, seq, detail in eval_tree(tree, seqs, seq_alpha, agg):
+                    agg.violation(kind, dict(sig, atoms="words"), {"pattern": R.to_json(tree), "seq": seq, "alphabet": seq_alpha, "atoms": "words"}, detail)
+        finally:
+            real.ATOMS.clear()
+        return
     atoms, size, lo, hi, seq_alpha, seq_len = block
     seqs = R.sequences(seq_alpha, seq_len)
     for idx, tree in enumerate(R.trees(size, atoms)[lo:hi]):
@@ -231,6 +248,8 @@ def replay(case):
 
 def _replay_isolated(case):
     agg = core.Agg()
+    if case.get("atoms") == "words":
+        real.ATOMS.update(WORD_ATOMS)
     tree = R.from_json(case["pattern"])
     alpha = case.get("alphabet", "abc")
     seqs = [case["seq"]] if case.get("seq") is not None else [""]
@@ -269,6 +288,13 @@ def run(ctx: core.Ctx):
             step = max(1, min(400, n // (ctx.workers * 4) + 1))
             for lo in range(0, n, step):
                 blocks.append((atoms, size, lo, min(n, lo + step), alpha, slen))
+    # the same enumeration with alphabet items that are a word, a tuple and a character (items are opaque to the engine)
+    for size in range(1, ctx.pick(3, 4) + 1):
+        n = len(R.trees(size, "abc"))
+        step = max(1, n // ctx.workers + 1)
+        for lo in range(0, n, step):
+            blocks.append(("words", "abc", size, lo, min(n, lo + step), "abc", 4))
+    ctx.bounds["word_atoms"] = {k: repr(v) for k, v in WORD_ATOMS.items()}
     pair_size = ctx.pick(4, 5)
     npair = len(pair_trees(pair_size))
     ctx.bounds["pattern_pairs"] = {"max_size": pair_size, "trees": npair, "ordered_pairs": npair * (npair - 1), "sequences": "all over ab up to length 3"}
